@@ -732,14 +732,21 @@ pub fn isolated_explore(total: usize, chunk: usize, on_death: &(dyn Fn(usize, bo
     let queue: Mutex<Vec<(usize, usize)>> = Mutex::new((0..total).step_by(chunk.max(1)).map(|s| (s, (s + chunk.max(1)).min(total))).rev().collect());
     let merged: Mutex<Report> = Mutex::new(Report::new());
     let fail = AtomicBool::new(false);
+    // every death costs up to a watchdog period: once MAX_DEATHS cases have killed their worker the verdict
+    // is settled (VIOLATION) and the remaining ranges are dropped - recorded as a cap, never silently
+    const MAX_DEATHS: usize = 8;
+    let deaths = std::sync::atomic::AtomicUsize::new(0);
     let exe = std::env::current_exe().expect("exe");
     let c = ctx();
     std::thread::scope(|s| {
         for _ in 0..c.threads.max(1) {
             s.spawn(|| {
                 loop {
+                    if deaths.load(Ordering::SeqCst) >= MAX_DEATHS {
+                        break;
+                    }
                     let Some((mut a, e)) = queue.lock().unwrap().pop() else { break };
-                    while a < e {
+                    while a < e && deaths.load(Ordering::SeqCst) < MAX_DEATHS {
                         let child = Command::new(&exe)
                             .arg(&c.property)
                             .arg("--tier")
@@ -788,6 +795,7 @@ pub fn isolated_explore(total: usize, chunk: usize, on_death: &(dyn Fn(usize, bo
                         r.evaluations += 1;
                         r.violate(on_death(idx, hang, format!("{:?}", status.map(|s| s.to_string()))));
                         merged.lock().unwrap().merge(r);
+                        deaths.fetch_add(1, Ordering::SeqCst);
                         a = idx + 1;
                     }
                 }
@@ -796,6 +804,10 @@ pub fn isolated_explore(total: usize, chunk: usize, on_death: &(dyn Fn(usize, bo
     });
     if fail.load(Ordering::SeqCst) {
         return None;
+    }
+    if deaths.load(Ordering::SeqCst) >= MAX_DEATHS {
+        let left = queue.lock().unwrap().len();
+        merged.lock().unwrap().caps_hit.push(format!("exploration stopped after {MAX_DEATHS} cases killed or hung their worker process ({left} ranges of {chunk} cases not started); each is reported as a violation"));
     }
     Some(merged.into_inner().unwrap())
 }
